@@ -581,77 +581,132 @@ func runC01Placement(c *cluster, placed []Placed, emit emitter, rng *rand.Rand) 
 			u.Shutdown()
 		}
 	}()
-	if !psim.WaitFor(30*time.Second, func() bool { return psim.Settled(c.nodes, "") }) {
-		return fmt.Errorf("did not settle for placement %v", placed)
+	// "settled": every routing table lists what the registries hold; failing that (30 s), every routing table has
+	// at least stopped changing - the property speaks of routing information that has settled, not of correct one
+	settle := func() error {
+		if psim.WaitFor(30*time.Second, func() bool { return psim.Settled(c.nodes, "") }) {
+			return nil
+		}
+		snap := func() string {
+			var b []byte
+			for _, n := range c.nodes {
+				cn, _ := n.ClusterNodes("")
+				x, _ := json.Marshal(cn)
+				b = append(b, x...)
+			}
+			return string(b)
+		}
+		a := snap()
+		time.Sleep(1500 * time.Millisecond)
+		if snap() != a {
+			return fmt.Errorf("did not settle for placement %v", placed)
+		}
+		return nil
 	}
-	for _, entry := range c.ids() {
-		for _, target := range c01endpoints {
-			for _, mode := range []string{"host", "header", "header-hide", "tcp", "tcp-conflict"} {
-				if mode == "host" && strings.Contains(target, ".") {
-					continue // a label cannot contain a dot
-				}
-				send := func() psim.Reply {
-					var rep psim.Reply
-					switch mode {
-					case "tcp":
-						rep = tcpRequest(c.byID[entry].ProxyAddr(), target, "none")
-					case "tcp-conflict":
-						// the path names the endpoint on the TCP route, whatever Host and header say
-						other := "e1"
-						if target == "e1" {
-							other = "e"
-						}
-						rep = tcpRequestHdr(c.byID[entry].ProxyAddr(), target, "none",
-							map[string]string{"Host": other + ".piko.example.com", "x-piko-endpoint": other})
-					default:
-						// a conflicting Host label when the header names the endpoint
-						hdr := map[string]string{}
-						if mode == "header" || mode == "header-hide" {
-							hdr["Host"] = "e1.piko.example.com"
-						}
-						reqMode := mode
-						if mode == "header-hide" {
-							// the client names the endpoint header as a hop-by-hop header: the request is still
-							// addressed to the endpoint the header names, on every hop
-							hdr["Connection"] = "x-piko-endpoint"
-							reqMode = "header"
-						}
-						rep = psim.Request(c.byID[entry].ProxyAddr(), reqMode, target, "GET", "/c01?x=1", hdr, nil)
+	if err := settle(); err != nil {
+		return err
+	}
+	sweep := func(placed []Placed, targets []string) {
+		for _, entry := range c.ids() {
+			for _, target := range targets {
+				for _, mode := range []string{"host", "header", "header-hide", "tcp", "tcp-conflict"} {
+					if mode == "host" && strings.Contains(target, ".") {
+						continue // a label cannot contain a dot
 					}
-					return rep
-				}
-				rep := send()
-				settled, note := true, ""
-				want := false
-				for _, p := range placed {
-					want = want || p.E == target
-				}
-				if want && rep.Status != 200 {
-					// the routing information may have stopped being settled under the request (on a starved
-					// machine a failure detector can flag a peer for a moment): the request is judged as
-					// "settled" only if it fails again once everything has settled again
-					transientRetries++
-					first := rep.Status
-					time.Sleep(300 * time.Millisecond)
-					psim.WaitFor(30*time.Second, func() bool { return psim.Settled(c.nodes, "") })
-					rep = send()
-					if rep.Status == 200 {
-						transientServed++
-						settled = false
-						note = fmt.Sprintf("first attempt answered %d; served after the routing information had settled again;", first)
+					send := func() psim.Reply {
+						var rep psim.Reply
+						switch mode {
+						case "tcp":
+							rep = tcpRequest(c.byID[entry].ProxyAddr(), target, "none")
+						case "tcp-conflict":
+							// the path names the endpoint on the TCP route, whatever Host and header say
+							other := "e1"
+							if target == "e1" {
+								other = "e"
+							}
+							rep = tcpRequestHdr(c.byID[entry].ProxyAddr(), target, "none",
+								map[string]string{"Host": other + ".piko.example.com", "x-piko-endpoint": other})
+						default:
+							// a conflicting Host label when the header names the endpoint
+							hdr := map[string]string{}
+							if mode == "header" || mode == "header-hide" {
+								hdr["Host"] = "e1.piko.example.com"
+							}
+							reqMode := mode
+							if mode == "header-hide" {
+								// the client names the endpoint header as a hop-by-hop header: the request is still
+								// addressed to the endpoint the header names, on every hop
+								hdr["Connection"] = "x-piko-endpoint"
+								reqMode = "header"
+							}
+							rep = psim.Request(c.byID[entry].ProxyAddr(), reqMode, target, "GET", "/c01?x=1", hdr, nil)
+						}
+						return rep
 					}
+					rep := send()
+					settled, note := true, ""
+					want := false
+					for _, p := range placed {
+						want = want || p.E == target
+					}
+					if want && rep.Status != 200 {
+						// the routing information may have stopped being settled under the request (on a starved
+						// machine a failure detector can flag a peer for a moment): the request is judged as
+						// "settled" only if it fails again once everything has settled again
+						transientRetries++
+						first := rep.Status
+						time.Sleep(300 * time.Millisecond)
+						psim.WaitFor(30*time.Second, func() bool { return psim.Settled(c.nodes, "") })
+						rep = send()
+						if rep.Status == 200 {
+							transientServed++
+							settled = false
+							note = fmt.Sprintf("first attempt answered %d; served after the routing information had settled again;", first)
+						}
+					}
+					s := &Step{Op: "Place", Nodes: c.ids(), Placed: placed, Entry: entry, Mode: mode, Target: target,
+						Status: rep.Status, Settled: settled, Note: note}
+					if rep.Stamp != nil {
+						s.ServedU, s.ServedE = rep.Stamp.Upstream, rep.Stamp.Endpoint
+					}
+					if rep.Err != "" {
+						s.Note += rep.Err
+					}
+					emit(s)
 				}
-				s := &Step{Op: "Place", Nodes: c.ids(), Placed: placed, Entry: entry, Mode: mode, Target: target,
-					Status: rep.Status, Settled: settled, Note: note}
-				if rep.Stamp != nil {
-					s.ServedU, s.ServedE = rep.Stamp.Upstream, rep.Stamp.Endpoint
-				}
-				if rep.Err != "" {
-					s.Note += rep.Err
-				}
-				emit(s)
 			}
 		}
+	}
+	sweep(placed, c01endpoints)
+	// one of several upstreams of an endpoint on one node disconnects: the endpoint is still served from every node
+	for i, p := range placed {
+		twin := false
+		for j, q := range placed {
+			twin = twin || (i != j && p.E == q.E && p.N == q.N)
+		}
+		if !twin {
+			continue
+		}
+		ups[i].Shutdown()
+		rest := append(append([]Placed{}, placed[:i]...), placed[i+1:]...)
+		left := 0
+		for _, q := range rest {
+			if q.E == p.E && q.N == p.N {
+				left++
+			}
+		}
+		if !psim.WaitFor(5*time.Second, func() bool {
+			m, err := c.byID[p.N].UpstreamEndpoints("")
+			return err == nil && m[p.E] == left
+		}) {
+			return fmt.Errorf("the registry of %s did not drop the closed upstream of %s", p.N, p.E)
+		}
+		time.Sleep(100 * time.Millisecond)
+		if err := settle(); err != nil {
+			return err
+		}
+		sweep(rest, []string{p.E})
+		break
 	}
 	return nil
 }
